@@ -35,9 +35,22 @@ def _setup_alt():
     h = hashlib.sha1(os.path.realpath(REPO).encode()).hexdigest()[:10]
     ALT = os.path.join(BUILD, "alt", h)
     os.makedirs(ALT, exist_ok=True)
-    ex = ["--exclude=*.vo", "--exclude=*.vok", "--exclude=*.vos", "--exclude=*.glob", "--exclude=*.aux", "--exclude=Gen/",
+    # warm start: compiled files are copied too (make compares time stamps; everything that depends on the regenerated
+    # Gen/ files, which are NOT copied, is rebuilt).  A .vo that may still be being written by a build in the main tree is
+    # dropped again (it is rebuilt here).
+    ex = ["--exclude=*.vok", "--exclude=*.vos", "--exclude=Gen/", "--exclude=scratch/",
           "--exclude=Makefile", "--exclude=Makefile.conf", "--exclude=.Makefile.d", "--exclude=_CoqProject", "--exclude=.lia.cache"]
+    first = not os.path.isdir(os.path.join(ALT, "coq"))
+    if not first:
+        ex += ["--exclude=*.vo", "--exclude=*.glob", "--exclude=*.aux"]
     subprocess.run(["rsync", "-a"] + ex + [COQ + "/", os.path.join(ALT, "coq") + "/"], check=True)
+    if first:
+        now = time.time()
+        for dp, _, fs in os.walk(os.path.join(ALT, "coq")):
+            for f in fs:
+                fp = os.path.join(dp, f)
+                if f.endswith(".vo") and (now - os.path.getmtime(fp) < 180 or os.path.getsize(fp) == 0):
+                    os.remove(fp)
     subprocess.run(["rsync", "-a", "--exclude=target/", "--exclude=Cargo.toml", "--exclude=Cargo.lock",
                     HARNESS + "/", os.path.join(ALT, "harness") + "/"], check=True)
     toml = open(os.path.join(HARNESS, "Cargo.toml")).read().replace('"/repo', '"' + os.path.realpath(REPO))
@@ -121,6 +134,21 @@ class Lock:
 
 # ----------------------------------------------------------------------------- harness
 
+# harness modules a property's check drives (default: its own cNN); modules whose Rust source uses another module
+PROP_HARNESS_MODULES = {"C02": {"c01"}, "C09": {"c08", "c09"}, "C11": {"c10", "c11"}}
+HARNESS_MODULE_DEPS = {"c02": {"c01"}, "c11": {"c10"}, "c09": {"c08"}}
+HARNESS_MISSING = {}
+CURRENT_PROP = None
+
+
+class TieBroken(Exception):
+    """the machinery that ties the model to the code cannot be built against the tree under test: the property is no
+    longer shown to hold (VIOLATION ... no-failing-input-found), unlike Infra (exit 2)"""
+    def __init__(self, what, detail=""):
+        Exception.__init__(self, what)
+        self.what, self.detail = what, detail
+
+
 def build_harness(profile="debug"):
     """Build vharness against the CURRENT /repo working tree (hooks on). Returns the binary path."""
     with Lock("cargo-%s-%s" % (profile, hashlib.sha1(HARNESS.encode()).hexdigest()[:8])):
@@ -142,8 +170,28 @@ def build_harness(profile="debug"):
             shutil.copy(lock_src, lock_dst)
             rc, out, err = sh(cmd, cwd=HARNESS, env=env, timeout=3000)
         if rc != 0:
-            raise Infra("harness does not build against the current /repo (%s):\n%s" % (profile, err[-3000:]))
+            # Which property modules (harness/src/cNN.rs) no longer compile against the tree under test?  An API they call
+            # was removed or changed: the tie of THOSE properties is broken (a violation with no failing input, DESIGN 4);
+            # every other property's check goes on with a harness built without them.
+            bad = set(re.findall(r"--> src/(c\d\d)\.rs", err))
+            if not bad:
+                raise Infra("harness does not build against the current /repo (%s):\n%s" % (profile, err[-3000:]))
+            closure = set(bad)
+            for m, deps in HARNESS_MODULE_DEPS.items():
+                if deps & bad:
+                    closure.add(m)
+            keep = [m for m in ("c%02d" % i for i in range(1, 21)) if m not in closure]
+            HARNESS_MISSING.update({m: err[-2500:] for m in closure})
+            rc, out, err2 = sh(cmd + ["--no-default-features", "--features", ",".join(keep)], cwd=HARNESS, env=env, timeout=3000)
+            if rc != 0:
+                raise Infra("harness does not build against the current /repo (%s), also without %s:\n%s" % (profile, sorted(closure), err2[-3000:]))
+            log("[build] harness %s WITHOUT modules %s (they do not compile against the tree)" % (profile, sorted(closure)))
         log("[build] harness %s in %.1fs" % (profile, time.time() - t0))
+    need = PROP_HARNESS_MODULES.get(CURRENT_PROP, {CURRENT_PROP.lower()} if CURRENT_PROP else set())
+    if need & set(HARNESS_MISSING):
+        m = sorted(need & set(HARNESS_MISSING))
+        raise TieBroken("harness module(s) %s (the adapter that runs the real code for this property) no longer compile against "
+                        "the current tree" % ", ".join(m), HARNESS_MISSING[m[0]])
     return os.path.join(HARNESS, "target", profile, "vharness")
 
 
@@ -364,6 +412,8 @@ class Check:
     """One run of one property's check. Collects obligations, correspondence stats, violations."""
 
     def __init__(self, prop, tier, seed):
+        global CURRENT_PROP
+        CURRENT_PROP = prop
         self.prop = prop
         self.tier = tier
         self.seed = seed
